@@ -479,7 +479,7 @@ def tilt_lemmas():
         f = cls.find(ctx.world.repo, '_trace_dist_func')
         res = ctx.world.interp.call_function(ctx, cls.find(ctx.world.repo, '_arc_len'), [f, a, b], {})
         calls = ctx.__dict__.get('ghost_quad_calls', [])
-        ctx.oblige('C04::DispersiveTilt._arc_len.one_quadrature', len(calls) == 1)
+        ctx.oblige('C04::DispersiveTilt._arc_len.one_quadrature', len(calls) == 1, 'structure')
         if len(calls) == 1:
             ctx.oblige('C04::DispersiveTilt._arc_len.limits_in_the_given_order',
                        S.and_(S.eq(calls[0]['a'], a), S.eq(calls[0]['b'], b), S.eq(res, calls[0]['value'])))
@@ -639,7 +639,7 @@ def _fit_contract(tag, nseg, inplace):
         ps = p0.attrs['_pixelscale']
         calls = ctx.__dict__.get('ghost_lstsq_calls', [])
         name = 'plane.Plane.fit_tilt::%%s[%s]' % tag
-        ctx.oblige(name % 'one_least_squares_fit_per_segment', len(calls) == nseg, info={'calls': len(calls)})
+        ctx.oblige(name % 'one_least_squares_fit_per_segment', len(calls) == nseg, 'structure', info={'calls': len(calls)})
         if len(calls) != nseg:
             return None
         before = len(p0.attrs['tilt'].items)
